@@ -10,6 +10,7 @@ import (
 	"time"
 
 	"github.com/cnotch/ipchub/stats"
+	"github.com/cnotch/ipchub/utils/verifhook"
 	"github.com/cnotch/queue"
 	"github.com/cnotch/xlog"
 )
@@ -47,6 +48,7 @@ func (c *consumption) Close() error {
 	}
 
 	c.closed = true
+	verifhook.Point("consumption.close.flagged", uint32(c.cid))
 	c.recvQueue.Signal()
 	return nil
 }
@@ -95,6 +97,7 @@ func (c *consumption) consume() {
 	}()
 
 	for !c.closed {
+		verifhook.Point("consume.beforePop", uint32(c.cid))
 		p := c.recvQueue.Pop()
 		if p == nil {
 			if !c.closed {
